@@ -1,0 +1,45 @@
+//go:build verif
+
+// Contracts for "HTTP continuations advance the stream exactly one turn" (property C16).
+// Comment-only.
+
+package vgirpc
+
+// The framework's transport keys: the set is built once by the package initialiser and holds
+// (at least) the cursor token, the call token and the cancel key.
+//@ constmap frameworkTickMetadataKeys [C16] has MetaStreamState, MetaCallState, MetaCancel
+
+// stripFrameworkTickMetadata: what it returns carries no framework key — in particular neither
+// token nor the cancel key — and keys and values still pair up. stripped(m) names its results.
+//
+//@ ghost pred stripped(m arrow.Metadata)
+//@ func stripFrameworkTickMetadata
+//@   property C16
+//@   establishes stripped(result)
+//@   loop 0 invariant len(keys) == len(values) && arr(keys) != arr(values) && arr(keys) != arr(srcKeys) && arr(values) != arr(srcKeys) && arr(keys) != arr(srcValues) && arr(values) != arr(srcValues)
+//@   loop 0 invariant forall j int :: 0 <= j && j < len(keys) ==> keys[j] != MetaStreamState && keys[j] != MetaCallState && keys[j] != MetaCancel
+//@   at call arrow.NewMetadata assert [nokeys] len(arg0) == len(arg1) &&
+//@       (forall j int :: 0 <= j && j < len(arg0) ==> arg0[j] != MetaStreamState && arg0[j] != MetaCallState && arg0[j] != MetaCancel)
+
+// handleExchangeCall: the handler sees the request's own metadata with the framework keys
+// removed; a fresh cursor is merged into exactly the data batch, and only on a turn that did not
+// fail (every failure answers with an error batch and returns before the flush loop).
+//
+//@ func (*HttpServer).handleExchangeCall
+//@   property C16
+//@   at call stripFrameworkTickMetadata assert [ownmeta] arg0 == inputMeta
+//@   at call ExchangeState.Exchange assert [handlerclean] stripped(callCtx.InputMetadata) && arg3 == callCtx && arg1 == inputBatch
+//@   at call arrow.NewMetadata assert [cursoronsuccess] !errResp && exchangeErr == nil && err == nil
+//@   at call arrow.NewMetadata assert [cursorkey] len(arg0) >= 1 && arg0[len(arg0)-1] == MetaStreamState
+//@   at call arrow.NewMetadata assert [paired] len(arg0) == len(arg1)
+//@   at call arrow.NewMetadata assert [databatch] isDataBatch
+//@   at call (*HttpServer).packCursorToken assert [freshcursor] arg1 == callID && arg2 == iface(state) && arg3 == auth
+
+// handleStreamCancel: the cancel hook runs (once: its only call site is outside any loop) inside
+// a recover, nothing is written to the stream, the response is an empty 200 stream, no cursor.
+//
+//@ func (*HttpServer).handleStreamCancel
+//@   property C16
+//@   at call (*HttpServer).writeArrow assert [emptyok] arg2 == 200
+//@   at call * except StreamCanceller.OnCancel, slog.Debug, ipc.NewWriter, ipc.WithSchema, (*ipc.Writer).Close, (*HttpServer).logIPCWriteErr, (*HttpServer).writeArrow, (*bytes.Buffer).Bytes, (*HttpServer).handleStreamCancel$1, (*HttpServer).handleStreamCancel$1$1 assert [nothingelse] false
+//@   ensures [nocursor] result == nil
